@@ -211,7 +211,8 @@ func replayOnce(dir string, v *ViolationRec, tag string) (*ViolationRec, error) 
 	out := filepath.Join(dir, "replay-out-"+tag+".json")
 	writeJSON(in, v)
 	os.Remove(out)
-	code, se := runWorker(map[string]string{"VSIM_MODE": "replay", "VSIM_IN": in, "VSIM_OUT": out}, 5*time.Minute)
+	os.Remove(out + ".stuck")
+	code, se := runWorker(map[string]string{"VSIM_MODE": "replay", "VSIM_IN": in, "VSIM_OUT": out, "VSIM_STUCK": out + ".stuck"}, 5*time.Minute)
 	var r ViolationRec
 	if err := readJSON(out, &r); err != nil {
 		if code != 0 {
@@ -220,11 +221,18 @@ func replayOnce(dir string, v *ViolationRec, tag string) (*ViolationRec, error) 
 			r.Oracle = v.Prop + ".crash"
 			r.Msg = crashLine(se)
 			r.LogHash = "crash"
+			if b, e := os.ReadFile(out + ".stuck"); e == nil {
+				r.Oracle, r.Msg = v.Prop+".blocked-on-lock:"+string(b), stuckMsg(string(b))
+			}
 			return &r, nil
 		}
 		return nil, fmt.Errorf("replay produced no result (exit %d): %s", code, tail(se, 20))
 	}
 	return &r, nil
+}
+
+func stuckMsg(site string) string {
+	return "a goroutine is blocked acquiring a lock in " + site + " while the lock's holder waits for simulated time or I/O: the call hangs for as long as the holder takes (the simulation made no step for 20 s of real time)"
 }
 
 func crashLine(se string) string {
@@ -458,7 +466,7 @@ func check(prop, tier string) int {
 				out := filepath.Join(dir, fmt.Sprintf("w%d-%d.json", w, round))
 				cur := filepath.Join(dir, fmt.Sprintf("w%d.cur", w))
 				code, se := runWorker(map[string]string{"VSIM_MODE": "explore", "VSIM_PROP": prop, "VSIM_SEED": fmt.Sprint(wseed), "VSIM_FROM": fmt.Sprint(from),
-					"VSIM_PARAMS": fmt.Sprintf(`{"tier":%q}`, tier), "VSIM_GC_EVERY": fmt.Sprint(gcEvery(prop)), "VSIM_COUNT": "1000000000", "VSIM_BUDGET_MS": fmt.Sprint(left.Milliseconds()), "VSIM_OUT": out, "VSIM_CUR": cur}, left+3*time.Minute)
+					"VSIM_PARAMS": fmt.Sprintf(`{"tier":%q}`, tier), "VSIM_GC_EVERY": fmt.Sprint(gcEvery(prop)), "VSIM_COUNT": "1000000000", "VSIM_BUDGET_MS": fmt.Sprint(left.Milliseconds()), "VSIM_OUT": out, "VSIM_CUR": cur, "VSIM_STUCK": cur + ".stuck"}, left+3*time.Minute)
 				var r Result
 				if err := readJSON(out, &r); err != nil {
 					// worker died mid-episode
@@ -472,6 +480,10 @@ func check(prop, tier string) int {
 					if err2 := readJSON(cur, &c); err2 == nil {
 						c.Oracle = prop + ".crash"
 						c.Msg = crashLine(se)
+						if b, e := os.ReadFile(cur + ".stuck"); e == nil {
+							os.Remove(cur + ".stuck")
+							c.Oracle, c.Msg = prop+".blocked-on-lock:"+string(b), stuckMsg(string(b))
+						}
 						c.WSeed, c.WFrom, c.GCEvery = wseed, from, uint64(gcEvery(prop))
 						c.Params = map[string]string{"tier": tier}
 						mu.Lock()
@@ -765,7 +777,7 @@ func confirm(dir string, v *ViolationRec, tag string) (*ViolationRec, string) {
 		}
 	}
 	cand := *v
-	if !strings.HasSuffix(v.Oracle, ".crash") && len(v.Tape) > 0 {
+	if !strings.HasSuffix(v.Oracle, ".crash") && !strings.Contains(v.Oracle, ".blocked-on-lock:") && len(v.Tape) > 0 {
 		in := filepath.Join(dir, "shrink-in-"+tag+".json")
 		out := filepath.Join(dir, "shrink-out-"+tag+".json")
 		writeJSON(in, v)
